@@ -25,11 +25,16 @@ func Main(reg map[string]hk.Check, reps map[string]hk.Replayer) {
 	budget := flag.Duration("budget", 60*time.Second, "wall-clock budget (internal deadline)")
 	seed := flag.Uint64("seed", 1, "seed")
 	replay := flag.String("replay", "", "replay file")
+	fresh := flag.Bool("fresh-exec", false, "child mode: run one execution of the scenario described on stdin and print its outcome")
 	flag.Parse()
 	// the code under test logs through slog / log: keep stdout clean
 	log.SetOutput(io.Discard)
 	slog.SetDefault(slog.New(hk.LogRecorder()))
 	vrt.Seed = *seed
+	if *fresh {
+		engine.FreshChild()
+		return
+	}
 	ctx := &engine.Ctx{Res: engine.NewResult(*prop, *tier), Tier: *tier, Shard: *shard, NShards: *nshards, Seed: *seed,
 		Deadline: time.Now().Add(*budget)}
 	t0 := time.Now()
